@@ -4,6 +4,7 @@ logical-step watchdog."""
 from __future__ import annotations
 
 import functools
+import inspect
 import math
 
 import numpy as np
@@ -51,12 +52,17 @@ def install():
     from aspire.samples import SMCSamples
 
     orig_db = SMCSampler.determine_beta
+    sig_db = inspect.signature(orig_db)
 
     @functools.wraps(orig_db)
-    def determine_beta(self, samples, beta, beta_step, min_step, beta_tolerance=1e-6):
-        out = orig_db(self, samples, beta, beta_step, min_step, beta_tolerance=beta_tolerance)
+    def determine_beta(self, *args, **kwargs):
+        # signature-transparent: the wrapper must keep working if the wrapped function grows a parameter
+        out = orig_db(self, *args, **kwargs)
         r = REC
         if r is not None:
+            ba = sig_db.bind(self, *args, **kwargs)
+            ba.apply_defaults()
+            samples, beta, min_step, beta_tolerance = ba.arguments["samples"], ba.arguments["beta"], ba.arguments["min_step"], ba.arguments["beta_tolerance"]
             new_beta, new_min = out
             rec = {
                 "beta_prev": float(beta),
@@ -86,8 +92,8 @@ def install():
     orig_ratio = SMCSamples.log_evidence_ratio
 
     @functools.wraps(orig_ratio)
-    def log_evidence_ratio(self, beta):
-        out = orig_ratio(self, beta)
+    def log_evidence_ratio(self, beta, *args, **kwargs):
+        out = orig_ratio(self, beta, *args, **kwargs)
         if REC is not None:
             REC.events.append(("ratio", id(self), float(self.beta), float(beta), float(to_np(out))))
         return out
@@ -95,11 +101,15 @@ def install():
     SMCSamples.log_evidence_ratio = log_evidence_ratio
 
     orig_res = SMCSamples.resample
+    sig_res = inspect.signature(orig_res)
 
     @functools.wraps(orig_res)
-    def resample(self, beta, n_samples=None, rng=None):
-        out = orig_res(self, beta, n_samples=n_samples, rng=rng)
+    def resample(self, *args, **kwargs):
+        out = orig_res(self, *args, **kwargs)
         if REC is not None:
+            ba = sig_res.bind(self, *args, **kwargs)
+            ba.apply_defaults()
+            beta, n_samples, rng = ba.arguments["beta"], ba.arguments.get("n_samples"), ba.arguments.get("rng")
             REC.events.append(("resample", id(self), float(self.beta), float(beta), n_samples, id(out), id(rng)))
             if REC.keep_resample_pops:
                 from .harness import pop_to_np
@@ -115,14 +125,14 @@ def install():
             return
 
         @functools.wraps(orig)
-        def mutate(self, particles, beta, n_steps=None):
+        def mutate(self, particles, beta, *args, **kwargs):
             r = REC
             if r is not None:
                 r.cur_beta = float(beta)
                 r.n_mutate += 1
                 r.events.append(("mutate", id(particles), float(beta)))
             try:
-                out = orig(self, particles, beta, n_steps=n_steps)
+                out = orig(self, particles, beta, *args, **kwargs)
                 if r is not None and r.keep_mutated:
                     from .harness import pop_to_np
 
@@ -274,6 +284,40 @@ def run(aspire, n, sampler="smc", opts=None, identity=False, max_calls=20000, re
         minipcn.IDENTITY = emcee.IDENTITY = False
         minipcn.MAX_CALLS = emcee.MAX_CALLS = None
         res.sampler = aspire.sampler
+    return res
+
+
+def run_again(aspire, n, opts=None, identity=False, max_calls=20000, rec: Recorder | None = None):
+    """A further fresh run on the sampler object the previous sample_posterior call built (sampler.sample directly)."""
+    global REC
+    import emcee
+    import minipcn
+
+    install()
+    res = RunResult()
+    res.rec = rec or Recorder()
+    sampler = aspire.sampler
+    accepted = inspect.signature(sampler.sample).parameters
+    kw = {k: v for k, v in (opts or {}).items() if k in accepted and k not in ("preconditioning", "preconditioning_kwargs")}
+    REC = res.rec
+    minipcn.IDENTITY = emcee.IDENTITY = identity
+    minipcn.N_CALLS = emcee.N_CALLS = 0
+    minipcn.MAX_CALLS = emcee.MAX_CALLS = max_calls
+    try:
+        res.samples = sampler.sample(n, **kw)
+        res.history = sampler.history
+    except BaseException as exc:  # noqa: BLE001
+        if isinstance(exc, (KeyboardInterrupt, SystemExit)):
+            raise
+        res.exc = exc
+        res.exc_type = type(exc).__name__
+        res.history = getattr(sampler, "history", None)
+    finally:
+        REC = None
+        res.kernel_calls = minipcn.N_CALLS + emcee.N_CALLS
+        minipcn.IDENTITY = emcee.IDENTITY = False
+        minipcn.MAX_CALLS = emcee.MAX_CALLS = None
+        res.sampler = sampler
     return res
 
 
